@@ -216,6 +216,7 @@ func vpH_C11_T_stop_vs_notify() {
 	vpQuiesce()
 	vpCover("C11.stop-vs-notify")
 	vpAssert("C11.no-deadlock", vpDeadlocked() == "" && stopped)
+	vpAssert("C09.no-deadlock", vpDeadlocked() == "" && stopped)
 	vpAssert("C11.threads-end", vpThreadsAlive() == 0)
 }
 
